@@ -11,14 +11,14 @@ use std::collections::BTreeMap;
 pub type Case = HCase;
 
 pub fn strategy() -> impl Strategy<Value = Case> {
-    (proptest::collection::vec(file_init(1, 8), 1..=2), proptest::collection::vec(c02::block(), 2..=7)).prop_map(|(files, blocks)| {
+    (proptest::collection::vec(file_init(1, 8), 1..=2), proptest::collection::vec(prop_oneof![3 => c02::block(), 1 => rewrite_scenario_block(crate::gen::edit_r1())], 2..=7)).prop_map(|(files, blocks)| {
         let mut ops: Vec<HOp> = blocks
             .into_iter()
             .flatten()
             // forms neither mode claims to preserve are left to C03
             .filter(|o| !matches!(o, HOp::CherryPick { no_commit: true, .. }))
             .collect();
-        ops.truncate(20);
+        ops.truncate(26);
         HCase { files, ops }
     })
 }
@@ -30,7 +30,24 @@ pub fn run(case: &Case) -> CaseReport {
     // F35: in hooks mode an aborted rebase/cherry-pick leaves state behind that makes the
     // next commits lose their notes
     let aborted = w.outcomes.iter().any(|o| o.aborted);
-    let taint = w.taint.or(h.taint).or(if aborted { Some("hooks-mode-loses-notes-after-aborted-operation") } else { None });
+    // F45: in hooks mode a rebase / cherry-pick of two or more commits that stops on a
+    // conflict and is continued loses attribution the wrapper keeps
+    let multi_conflict = w.outcomes.iter().chain(h.outcomes.iter()).any(|o| o.conflicted && !o.aborted && o.rewritten >= 2);
+    if multi_conflict {
+        rep.class("multi-commit-rewrite-with-conflict");
+    }
+    // F46: in hooks mode an interactive rebase that reorders commits loses the attribution
+    // of the commits that moved (the wrapper keeps it when the commits touch disjoint files)
+    let reorder = w.outcomes.iter().any(|o| o.kind == "rebase-i-reorder" && o.rewritten >= 2 && !o.aborted);
+    if reorder {
+        rep.class("interactive-reorder");
+    }
+    let taint = w
+        .taint
+        .or(h.taint)
+        .or(if reorder { Some("hooks-mode-interactive-reorder-loses-attribution") } else { None })
+        .or(if aborted { Some("hooks-mode-loses-notes-after-aborted-operation") } else { None })
+        .or(if multi_conflict { Some("hooks-mode-multi-commit-rewrite-with-conflict-loses-attribution") } else { None });
     let same = twin::compare(&w, &h, &mut rep, "C13", "wrapper", "hooks", taint);
     rep.nontrivial = same && w.preserving_with_ai >= 1 && w.commits.len() >= 3;
     rep
@@ -40,8 +57,8 @@ pub fn spec() -> Spec<Case> {
     Spec {
         id: "C13",
         level: "exploration",
-        rule: "one generated history (<=20 ops from the C02 alphabet: edits, commits, forks/switches, rebase incl. interactive and conflicts, cherry-pick, amend, merge --squash, reset --soft/--mixed + recommit, stash round trips) executed twice with identical pinned dates: through the git-ai wrapper, and with plain git plus git-ai's managed repository hooks (`git-hooks ensure`). Commit ids coincide; for every commit the attestation sets {(path, session, line)} must be equal, and `git-ai blame --json` of every file at every branch tip must be equal. non-trivial = twins produced the same commits and >=1 preserving op ran with AI attribution present in a history of >=3 commits; distinct by case hash".into(),
-        cases_quick: 98,
+        rule: "one generated history (<=20 ops from the C02 alphabet: edits, commits, forks/switches, rebase incl. interactive and conflicts, cherry-pick, amend, merge --squash, reset --soft/--mixed + recommit, stash round trips) executed twice with identical pinned dates: through the git-ai wrapper, and with plain git plus git-ai's managed repository hooks (`git-hooks ensure`). Commit ids coincide; for every commit the attestation sets {(path, session, line)} must be equal (for rewritten commits: on the lines the commit adds), and `git-ai blame --json` of every file at every branch tip must be equal. non-trivial = twins produced the same commits and >=1 preserving op ran with AI attribution present in a history of >=3 commits; distinct by case hash".into(),
+        cases_quick: 196,
         cases_thorough: 2000,
         shrink_iters: 50,
         workers: 14,
